@@ -1,8 +1,8 @@
 package main
 
 import (
-	"go/types"
 	"go/token"
+	"go/types"
 	"sort"
 	"strings"
 
@@ -21,7 +21,7 @@ func init() {
 			"R2 ordering in the nat ISTIO_OUTPUT chain: no rule that exempts traffic (-j RETURN: proxy uid/gid bypass, loopback, excluded ports, excluded ranges) is appended after a point where a capturing rule (-j ISTIO_REDIRECT) has been appended; no family-neutral Insert targets ISTIO_OUTPUT",
 			"R3 the loopback-included flag of an address list is monotone: it is only ever set to true (accumulates over the list)",
 		},
-		NotDecided: "packet-level evaluation of the rule set, correctness of individual match parameters, TPROXY mangle rules, DNS capture rules",
+		NotDecided: "packet-level evaluation of the rule set (R7 decides that each excluded port / interface gets a rule, not what the rule matches), correctness of individual match parameters, TPROXY mangle rules, DNS capture rules",
 		Rules: []Rule{
 			{"C20-R1", "v4/v6 parity", c20r1},
 			{"C20-R2", "exemptions precede capture in ISTIO_OUTPUT", c20r2},
@@ -29,6 +29,7 @@ func init() {
 			{"C20-R4", "a negated include filter is one rule over the whole list", c20r4},
 			{"C20-R5", "the idempotency check probes every generated rule", c20r5},
 			{"C20-R6", "every CIDR is filed by its own family", c20r6},
+			{"C20-R7", "every element of an exclusion list gets its rule", c20r7},
 		},
 	})
 }
@@ -448,7 +449,6 @@ func isAddrLiteral(s string) bool {
 	return true
 }
 
-
 // C20-R4: "capture only the traffic of these owners" is expressed as ONE rule `! owner a ! owner b ... -j RETURN`
 // (the packet is none of them => leave it alone). Negated matches only combine by AND inside a single rule: spread over
 // several first-match RETURN rules (a loop, chunks of the list) each rule returns the members of the other chunks and
@@ -623,4 +623,54 @@ func c20r6(c *Ctx) {
 	c.Check("SeparateV4V6 files prefixes into the ranges", fn.Pos(), m >= 1, "no store into NetworkRange.CIDRs")
 	_ = n
 	c.Floor(3)
+}
+
+// C20-R7: every element of a user-given exclusion list gets its rule. In the capture package, a range loop over
+// config.Split(<Config field whose name says Exclude>) emits a rule through the builder on every pass: no path through
+// the loop body returns to the loop header without a builder call. A pass that skips its element leaves that port or
+// interface captured although the user excluded it (seed C20-3 skipped the excluded port equal to the tunnel port,
+// arguing another rule already covers it - that rule matches a different chain position).
+func c20r7(c *Ctx) {
+	p := c.P
+	n := 0
+	for _, fn := range p.AllFuncs {
+		if fn.Pkg == nil || !strings.HasSuffix(fn.Pkg.Pkg.Path(), pkgCapture) {
+			continue
+		}
+		isRule := map[ssa.Instruction]bool{}
+		for _, rc := range builderCalls(p, fn) {
+			isRule[rc.ins] = true
+		}
+		for _, l := range rangeLoops(fn) {
+			call, ok := l.Over.(*ssa.Call)
+			if !ok || l.Header == nil {
+				continue
+			}
+			if o := calleeObj(call); o == nil || o.Name() != "Split" || len(call.Call.Args) != 1 {
+				continue
+			}
+			u, ok := call.Call.Args[0].(*ssa.UnOp)
+			if !ok {
+				continue
+			}
+			fa, ok := u.X.(*ssa.FieldAddr)
+			if !ok {
+				continue
+			}
+			f := fieldVar(fa.X.Type(), fa.Field)
+			if f == nil || !strings.Contains(f.Name(), "Exclude") {
+				continue
+			}
+			n++
+			bad, found := pathAvoidingE(l.Body, nil, func(ins ssa.Instruction) bool { return isRule[ins] }, nil, nil, l.Header)
+			pos := call.Pos()
+			if bad != nil && bad.Pos().IsValid() {
+				pos = bad.Pos()
+			}
+			c.Check("every element of "+f.Name()+" gets its rule: "+shortFn(fn), pos, !found,
+				"a pass of the loop over the user's exclusion list can finish without emitting a rule: that port / interface stays captured although it was excluded")
+		}
+	}
+	c.Check("exclusion-list loops found", token.NoPos, n >= 4, "fewer than the four exclusion loops confirmed by hand (inbound ports, outbound ports, interfaces nat + mangle)")
+	c.Floor(5)
 }
